@@ -154,6 +154,13 @@ Fixpoint chunks (k : nat) (n : nat) (l : list N) : list (list N) :=
   | S n' => firstn k l :: chunks k n' (skipn k l)
   end.
 
+Fixpoint list_eqb (a b : list N) : bool :=
+  match a, b with
+  | [], [] => true
+  | x :: a', y :: b' => (x =? y) && list_eqb a' b'
+  | _, _ => false
+  end.
+
 (* ------------------------------------------------------------------ *)
 (* Ipv4Addr: Display and FromStr (exact)                                *)
 Definition digit (d : N) : N := 48 + d.
@@ -823,13 +830,6 @@ Inductive api_nc : Type :=
 | NcTyped (code : N) (t : list N)                 (* TunnelEncap / PrefixSid / Ls message *)
 | NcUnknown (flags code : N) (b : list N).        (* Unknown { flags, type, value } *)
 
-Fixpoint list_eqb (a b : list N) : bool :=
-  match a, b with
-  | [], [] => true
-  | x :: a', y :: b' => (x =? y) && list_eqb a' b'
-  | _, _ => false
-  end.
-
 Section Guarded.
   (* attr_to_api_typed on the value bytes: the typed message, or None for the
      Unknown form PREFIX_SID falls back to when its decoder fails *)
@@ -948,11 +948,31 @@ Section Run.
      competitor [ORIGIN igp; empty AS_PATH] *)
   Definition competitor : list attr := [mkAttr ORIGIN 64 (DVal 0); mkAttr AS_PATH 64 (DBin [])].
 
+  Definition adata_eqb (x y : adata) : bool :=
+    match x, y with
+    | DVal v, DVal w => v =? w
+    | DBin b, DBin c | DOpaque b, DOpaque c => list_eqb b c
+    | _, _ => false
+    end.
+  Definition attr_eqb (x y : attr) : bool :=
+    (a_code x =? a_code y) && (a_flags x =? a_flags y) && adata_eqb (a_data x) (a_data y).
+
+  (* listing an accepted value and giving it back: 0 the same value, 1 another value, 2 refused *)
+  Definition v_relist (a : attr) : val :=
+    if core_code (a_code a) then
+      match roundtrip v6p v6r a with
+      | Ok (Some a') => VI (if attr_eqb a a' then 0 else 1)
+      | Ok None => VI 2
+      | Panic _ => VL [VI (-1)]
+      end
+    else VI 0.
+
   Definition v_downstream (a : attr) : val :=
     VL [ (if a_code a =? AS_PATH then v_res VN (as_path_length a) else VL [VI (-2)]);
          v_res (fun b => VN (N.of_nat (length b))) (encode_attr a);
          v_res (fun _ => VI 0) (to_api v6p a);
-         v_res (fun z => VB (z <? 0)%Z) (rib_cmp (local_path_attrs [a]) 2 competitor 1) ].
+         v_res (fun z => VB (z <? 0)%Z) (rib_cmp (local_path_attrs [a]) 2 competitor 1);
+         v_relist a ].
 
   (* kind 1: an API attribute message *)
   Definition run_api (x : api_attr) : val :=
@@ -1570,7 +1590,8 @@ Definition run_local_path_case (fam : option N) (n : api_nlri) (xs : list api_at
 Definition run_api_nlri_case (p : profile) (x : api_nlri) : val :=
   match net_from_api v6_parse x with
   | None => VL [VI 0]
-  | Some n => VL [VI 1; v_nlri n; v_res (fun b => VNs b) (encode_nlri p n)]
+  | Some n => VL [VI 1; v_nlri n; v_res (fun b => VNs b) (encode_nlri p n);
+                  v_onlri (net_from_api v6_parse (nlri_to_api v6_print n))]
   end.
 
 Definition run_nlri_case (n : nlri) : val :=
